@@ -104,7 +104,22 @@ class StepInterp(Evaluator):
                 return
             self.stmt(s)
 
+    def _is_text(self, e):
+        """An expression that only builds a name / message: f-string, str constant, .format(...), concatenations of those."""
+        if isinstance(e, ast.JoinedStr) or (isinstance(e, ast.Constant) and isinstance(e.value, str)):
+            return True
+        if isinstance(e, ast.Call) and call_name(e) in ("format", "get_name", "str", "join"):
+            return True
+        if isinstance(e, ast.BinOp) and isinstance(e.op, (ast.Add, ast.Mod)):
+            return self._is_text(e.left) or self._is_text(e.right)
+        if isinstance(e, ast.Name) and isinstance(self.env.get(e.id), Opaque) and self.env[e.id].tag == "str":
+            return True
+        return False
+
     def stmt(self, s):
+        if isinstance(s, ast.Assign) and len(s.targets) == 1 and isinstance(s.targets[0], ast.Name) and self._is_text(s.value):
+            self.env[s.targets[0].id] = Opaque("str")
+            return
         if isinstance(s, ast.Assign) and len(s.targets) == 1:
             v = self.ev(s.value)
             self.bind(s.targets[0], v)
@@ -264,8 +279,22 @@ def step_functions(repo):
     for rel, m in repo.modules.items():
         if rel.startswith("PEPit/primitive_steps/") and not rel.endswith("__init__.py"):
             for name, fn in m.functions.items():
-                out[name] = fn
+                if not name.startswith("_"):
+                    out[name] = fn
     return out
+
+
+def r_addconstraint(ctx):
+    fn = ctx.repo.cls("Function").methods.get("add_constraint")
+    if fn is None:
+        raise AnalysisError("Function.add_constraint missing")
+    p0 = params_of(fn)[1]
+    pc = flow.path_counts(fn.body, lambda n: isinstance(n, ast.Call) and call_name(n) == "append" and dotted(n.func.value) == "self.list_of_constraints"
+                          and n.args and dotted(n.args[0]) == p0)
+    normal = pc.get("next", set()) | pc.get("return", set())
+    ctx.ob("R-ADDCONS", "Function.add_constraint::registered", normal == {1},
+           "every side constraint handed to add_constraint is appended to list_of_constraints, on every path" if normal == {1} else
+           "add_constraint can complete without storing the constraint (appends per path: %s)" % sorted(normal), loc(fn, fn))
 
 
 def run(ctx):
@@ -323,5 +352,9 @@ def run(ctx):
             ctx.sample({"step": key, "returns": [str(v) for v in (ii.ret or [])],
                         "events": [(e[0], e[1], str(e[2])) for e in ii.events], "verdict": "equal" if why is None else why})
     ctx.count("step paths", npaths)
+    # the steps record through Function.add_point / add_constraint: these must register what they are given on every path
+    from . import c07
+    c07.r_addpoint(ctx)
+    r_addconstraint(ctx)
     ctx.floor("step functions", len(steps), 8)
     ctx.floor("step paths", npaths, 11)
